@@ -1,6 +1,6 @@
 SPECIFICATION Spec
 CONSTANTS
   Sizes = {64, 4095, 4096, 100000}
-  Layouts = {"canon", "v4", "rev", "v4rev", "dirrev", "free", "v4free"}
+  Layouts = {"canon", "v4", "rev", "v4rev", "dirrev", "dirgap", "free", "v4free"}
 INVARIANTS Refines Dump
 CHECK_DEADLOCK FALSE
